@@ -193,5 +193,116 @@ class TypeMap:
             self.kinds['struct ' + cname] = ('rec', list(fields))
         return 'struct ' + cname
 
+    def valid(self, ct, x, depth=0):
+        """C expression stating the C++ type invariant of object x of C type ct that a bit-level nondeterministic
+        value may violate (bool is 0 or 1), or None when there is nothing to state"""
+        ct = ct.strip()
+        if ct == '_Bool':
+            return '(%s == 0 || %s == 1)' % (x, x)
+        k = self.kinds.get(ct)
+        if not k:
+            return None
+        parts = []
+        if k[0] == 'rec':
+            for t, n in k[1]:
+                v = self.valid(t, '%s.%s' % (x, n), depth)
+                if v:
+                    parts.append(v)
+        elif k[0] == 'tup':
+            for i, t in enumerate(k[1]):
+                v = self.valid(t, '%s._%d' % (x, i), depth)
+                if v:
+                    parts.append(v)
+        elif k[0] == 'opt':
+            parts.append('(%s.has == 0 || %s.has == 1)' % (x, x))
+            v = self.valid(k[1], x + '.val', depth)
+            if v:
+                parts.append(v)
+        elif k[0] == 'arr':
+            for i in range(k[2]):
+                v = self.valid(k[1], '%s.a[%d]' % (x, i), depth)
+                if v:
+                    parts.append(v)
+        elif k[0] == 'vec':
+            q = 'verif_q%d' % depth
+            v = self.valid(k[1], '%s.data[%s]' % (x, q), depth + 1)
+            if v:
+                parts.append('__CPROVER_forall { unsigned long %s; %s }' % (q, v))
+        return ' && '.join(parts) if parts else None
+
     def emit(self):
         return '\n'.join(self.decls.values()) + '\n'
+
+    def lvalue_type(self, text, env):
+        """C type of a simple access path over the variables in env (name -> C type), or None"""
+        t = text.replace(' ', '')
+        deref = 0
+        while t.startswith('(') and t.endswith(')'):
+            t = t[1:-1]
+        while t.startswith('*'):
+            deref += 1
+            t = t[1:]
+            while t.startswith('(') and t.endswith(')'):
+                t = t[1:-1]
+        m = re.match(r'[A-Za-z_]\w*', t)
+        if not m or m.group(0) not in env:
+            return None
+        ct = env[m.group(0)]
+        rest = t[m.end():]
+        for _ in range(deref):
+            if not ct.rstrip().endswith('*'):
+                return None
+            ct = ct.rstrip()[:-1].rstrip()
+        while rest:
+            m = re.match(r'(->|\.)([A-Za-z_]\w*)', rest)
+            if m:
+                if m.group(1) == '->':
+                    if not ct.rstrip().endswith('*'):
+                        return None
+                    ct = ct.rstrip()[:-1].rstrip()
+                k = self.kinds.get(ct)
+                f = m.group(2)
+                if not k:
+                    return None
+                if k[0] == 'rec':
+                    d = dict((n, t2) for t2, n in k[1])
+                    if f not in d:
+                        return None
+                    ct = d[f]
+                elif k[0] == 'opt' and f in ('val', 'has'):
+                    ct = k[1] if f == 'val' else '_Bool'
+                elif k[0] == 'tup' and re.fullmatch(r'_\d+', f):
+                    ct = k[1][int(f[1:])]
+                elif k[0] == 'vec' and f in ('size',):
+                    ct = 'unsigned long'
+                elif k[0] == 'vec' and f == 'data':
+                    mm = re.match(r'(->|\.)data\[', rest)
+                    ct = 'ARRAY:' + k[1]
+                elif k[0] == 'arr' and f == 'a':
+                    ct = 'ARRAY:' + k[1]
+                else:
+                    return None
+                rest = rest[m.end():]
+                continue
+            if rest.startswith('['):
+                d, j = 0, 0
+                for j, ch in enumerate(rest):
+                    if ch == '[':
+                        d += 1
+                    elif ch == ']':
+                        d -= 1
+                        if d == 0:
+                            break
+                if not ct.startswith('ARRAY:'):
+                    return None
+                ct = ct[6:]
+                rest = rest[j + 1:]
+                continue
+            return None
+        return None if ct.startswith('ARRAY:') else ct
+
+    def valid_for(self, text, env):
+        ct = self.lvalue_type(text, env)
+        if ct is None:
+            return None
+        return self.valid(ct, '(%s)' % text if not re.fullmatch(r'[\w.>-]+', text) else text)
